@@ -141,11 +141,15 @@ def jensen_shannon_divergence(x, y):
         l1_norm_x += x[i]
         l1_norm_y += y[i]
 
-    l1_norm_x += EPS * dim
-    l1_norm_y += EPS * dim
+    # smooth relative to the mass of each vector, so that the result
+    # does not depend on the scale of the arguments
+    eps_x = EPS * l1_norm_x if l1_norm_x > 0 else EPS
+    eps_y = EPS * l1_norm_y if l1_norm_y > 0 else EPS
+    l1_norm_x += eps_x * dim
+    l1_norm_y += eps_y * dim
 
-    pdf_x = (x + EPS) / l1_norm_x
-    pdf_y = (y + EPS) / l1_norm_y
+    pdf_x = (x + eps_x) / l1_norm_x
+    pdf_y = (y + eps_y) / l1_norm_y
     m = 0.5 * (pdf_x + pdf_y)
 
     for i in range(dim):
@@ -166,11 +170,15 @@ def symmetric_kl_divergence(x, y):
         l1_norm_x += x[i]
         l1_norm_y += y[i]
 
-    l1_norm_x += EPS * dim
-    l1_norm_y += EPS * dim
+    # smooth relative to the mass of each vector, so that the result
+    # does not depend on the scale of the arguments
+    eps_x = EPS * l1_norm_x if l1_norm_x > 0 else EPS
+    eps_y = EPS * l1_norm_y if l1_norm_y > 0 else EPS
+    l1_norm_x += eps_x * dim
+    l1_norm_y += eps_y * dim
 
-    pdf_x = (x + EPS) / l1_norm_x
-    pdf_y = (y + EPS) / l1_norm_y
+    pdf_x = (x + eps_x) / l1_norm_x
+    pdf_y = (y + eps_y) / l1_norm_y
 
     for i in range(dim):
         result += pdf_x[i] * np.log(pdf_x[i] / pdf_y[i]) + pdf_y[i] * np.log(
